@@ -1821,7 +1821,12 @@ func (h procHarness) execOnce(p *simkit.Program) (*simkit.Result, *world) {
 // Exec runs the program; for C02 it additionally re-executes it under permutations of its
 // delivery steps (confluence check, DESIGN.md C02): the set of published digests must not depend
 // on arrival order, duplication or loopback timing.
+// setGovChain selects the governance chain id the processors of this run are configured with
+// (message descriptors with emitter class 2 name that chain).
+func setGovChain(c int64) { govChain = vaa.ChainID(uint16(c)) }
+
 func (h procHarness) Exec(p *simkit.Program) *simkit.Result {
+	setGovChain(p.C("govchain", 255))
 	if p.C("mesh", 0) > 0 {
 		return execMesh(h, p)
 	}
